@@ -83,11 +83,29 @@ Definition looks_numeric (buf : list byte) : bool :=
 
 Definition is_none {A} (o : option A) : bool := match o with None => true | Some _ => false end.
 
+(*  if (format == std_format || strstr(format, ".0f") == NULL) format_drops_decimals = 1;
+    `fmt` = None is the built-in "%.17g" (pointer equality with std_format), Some f a custom format:
+    json_c_set_serialization_double_format (global / thread) or the userdata of a double whose
+    serializer is json_object_double_to_json_string  *)
+Fixpoint is_prefix (a l : list byte) : bool :=
+  match a, l with
+  | [], _ => true
+  | _ :: _, [] => false
+  | x :: a', y :: l' => (x =? y) && is_prefix a' l'
+  end.
+Fixpoint has_sub (a l : list byte) : bool :=
+  is_prefix a l || match l with [] => false | _ :: t => has_sub a t end.
+Definition format_drops_decimals (fmt : option (list byte)) : bool :=
+  match fmt with None => true | Some f => negb (has_sub [46; 48; 102] f) end.
+
 (*  if (size < sizeof(buf) - 2 && looks_numeric && !p && strchr(buf,'e') == NULL && format_drops_decimals)
-        strcat(buf, ".0");            (format_drops_decimals = 1 for the standard format)  *)
-Definition add_dot0 (buf : list byte) (p : option nat) : list byte :=
-  if (zlen buf <? 126) && looks_numeric buf && is_none p && is_none (strchr CH_e buf)
+        strcat(buf, ".0");
+    (size is modelled by the length of what was written: they differ only when a custom format
+    overflows the 128-byte buffer, and then both are >= 126)  *)
+Definition add_dot0_fmt (drops : bool) (buf : list byte) (p : option nat) : list byte :=
+  if (zlen buf <? 126) && looks_numeric buf && is_none p && is_none (strchr CH_e buf) && drops
   then buf ++ [CH_DOT; CH_0] else buf.
+Definition add_dot0 (buf : list byte) (p : option nat) : list byte := add_dot0_fmt true buf p.
 
 (*  for (q = p; q[0]; q++) if (q[0] != '0') p = q;   — scanning l = buf[q..], q the index of its head *)
 Fixpoint last_nonzero (q : nat) (l : list byte) (p : nat) : nat :=
@@ -103,14 +121,17 @@ Definition nozero_trim (buf : list byte) (i : nat) : list byte :=
   let p := last_nonzero p0 (skipn p0 buf) p0 in
   if Nat.ltb p (length buf) then firstn (S p) buf else buf.
 
-(* everything after snprintf for a finite double, standard format *)
-Definition double_text (nozero : bool) (buf : list byte) : list byte :=
+(* everything after snprintf for a finite double; `drops` = format_drops_decimals *)
+Definition double_text_fmt (drops nozero : bool) (buf : list byte) : list byte :=
   let '(b1, p) := comma_fix buf in
-  let b2 := add_dot0 b1 p in
+  let b2 := add_dot0_fmt drops b1 p in
   match p with
   | Some i => if nozero then nozero_trim b2 i else b2
   | None => b2
   end.
+
+(* the standard format *)
+Definition double_text (nozero : bool) (buf : list byte) : list byte := double_text_fmt true nozero buf.
 
 Inductive dclass := DNaN | DInf (neg : bool) | DFin.
 
@@ -125,6 +146,15 @@ Definition ser_double (c : dclass) (nozero : bool) (snprintf17 : list byte) : li
   | DInf false => TXT_Infinity
   | DInf true => CH_MINUS :: TXT_Infinity
   | DFin => double_text nozero snprintf17
+  end.
+
+(* the same with any format in effect; `written` is what snprintf(buf, 128, format, d) wrote *)
+Definition ser_double_fmt (fmt : option (list byte)) (c : dclass) (nozero : bool) (written : list byte) : list byte :=
+  match c with
+  | DNaN => TXT_NaN
+  | DInf false => TXT_Infinity
+  | DInf true => CH_MINUS :: TXT_Infinity
+  | DFin => double_text_fmt (format_drops_decimals fmt) nozero written
   end.
 
 (* ===================================================================== Part 2 *)
